@@ -9,6 +9,7 @@ import (
 	"encoding/hex"
 	"encoding/json"
 	"fmt"
+	"math/big"
 	"net/http"
 	"net/http/httptest"
 	"path"
@@ -360,6 +361,16 @@ func buildAuthReq(routes []AuthRoute, a AuthReq, now time.Time, nonce string) FR
 			case "ts-zero-signed":
 				hs[th] = "0" + ts
 				hs[sh] = signHex(c.value, "0"+ts, "POST", signPath, req.Body)
+			case "ts-extreme-signed":
+				// a correctly signed timestamp absurdly far from now (where second/nanosecond arithmetic wraps)
+				offs := []int64{-(1 << 55), 1 << 55, -(1 << 62), 1 << 62, -9223372036, -9223372037, 9223372036, 9223372037, -(1 << 33), 1 << 33, -(1 << 31), 1 << 31}
+				x := now.Unix() + offs[(a.TsOffS+a.NowS+len(a.Body)+1000)%len(offs)]
+				if (a.TsOffS+a.NowS)%7 == 0 {
+					x = []int64{-1 << 63, 1<<63 - 1, 0, -1}[(a.User+len(a.Body))%4]
+				}
+				xs := strconv.FormatInt(x, 10)
+				hs[th] = xs
+				hs[sh] = signHex(c.value, xs, "POST", signPath, req.Body)
 			case "ts-hex":
 				hs[th] = "0x" + strconv.FormatInt(now.Unix(), 16)
 			case "ts-float":
@@ -450,8 +461,14 @@ func hmacAuthentic(routes []AuthRoute, ri int, req FReq, now time.Time) (authent
 		return false, false, false
 	}
 	t := time.Unix(ts, 0).UTC()
-	d := now.Sub(t)
-	inTol = d >= -r.tol() && d <= r.tol()
+	// age in exact arithmetic (time.Time / Duration saturate or wrap for absurd timestamps)
+	ageNs := new(big.Int).Sub(big.NewInt(now.Unix()), big.NewInt(ts))
+	ageNs.Mul(ageNs, big.NewInt(1e9)).Add(ageNs, big.NewInt(int64(now.Nanosecond())))
+	tolNs := big.NewInt(int64(r.tol()))
+	inTol = ageNs.CmpAbs(tolNs) <= 0
+	if new(big.Int).Abs(ageNs).Cmp(big.NewInt(1e18)) > 0 {
+		t = time.Time{} // far outside every validity window as well
+	}
 	got, err := hex.DecodeString(sig)
 	if err != nil || len(got) == 0 {
 		return false, false, inTol
@@ -500,7 +517,7 @@ func basicAuthentic(r AuthRoute, req FReq) bool {
 
 var (
 	c08Muts = []string{"sig-flipbit", "sig-upper", "sig-trunc", "sig-pad", "sig-del", "sig-empty", "sig-prefix", "ts-del", "ts-plus", "ts-plus-signed",
-		"ts-zero-signed", "ts-hex", "ts-float", "ts-shift", "nonce-del", "nonce-blank", "body-flip", "body-append", "method-get", "method-lower",
+		"ts-zero-signed", "ts-hex", "ts-float", "ts-shift", "ts-extreme-signed", "ts-extreme-signed", "nonce-del", "nonce-blank", "body-flip", "body-append", "method-get", "method-lower",
 		"path-child", "path-raw-signed", "hdr-lower", "default-hdr-names"}
 	c08PassMuts = []string{"", "", "", "wrong-same-len", "prefix", "longer", "other-user", "empty", "case", "unknown-user", "no-header", "not-base64", "lower-scheme", "bearer"}
 	c08Fwd      = []string{"200", "204", "401", "403", "302", "404", "500", "hang", "reset", "closed", "299", "400"}
@@ -553,6 +570,8 @@ func genAuthReq(t *rapid.T, routes []AuthRoute) AuthReq {
 	a := AuthReq{Route: rapid.IntRange(0, len(routes)-1).Draw(t, "route")}
 	r := routes[a.Route]
 	a.NowS = rapid.SampledFrom([]int{0, 0, -100, -10, 9, 10, 11, 99, 100, 101, 3600}).Draw(t, "now_s")
+	// the gateway clock is not on a whole second most of the time
+	a.NowNs = rapid.SampledFrom([]int{0, 0, 1, 400000000, 999999999}).Draw(t, "now_ns")
 	tol := int(r.tol() / time.Second)
 	a.TsOffS = rapid.SampledFrom([]int{0, 0, 0, -tol - 1, -tol, -tol + 1, tol - 1, tol, tol + 1, -1, 1}).Draw(t, "ts_off")
 	nc := len(candidates(routes, a.Route))
